@@ -290,11 +290,41 @@ inductive DocRes where
   | doc (vms : List (String × Nat))   -- verification method id ↦ key
   deriving Repr
 
+/-! ### `jwx.AlgorithmFitsKey` (crypto/jwx/algorithm.go): the guard in front of `jws.Verify` -/
+
+/-- what the type switch of `AlgorithmFitsKey` distinguishes in the key it is handed -/
+inductive KeyShape where
+  | ec (curve : String)              -- *ecdsa.PublicKey, ecdsa.PublicKey, *ecdsa.PrivateKey, jwk.ECDSAPublicKey, jwk.ECDSAPrivateKey
+  | ed (len : Nat)                   -- ed25519.PublicKey, non-nil *ed25519.PublicKey: length of the key
+  | edNil                            -- nil *ed25519.PublicKey
+  | okp (crv : String) (xlen : Nat)  -- jwk.OKPPublicKey
+  | other                            -- every other Go type, nil included (the `default` clause)
+  deriving DecidableEq, Repr
+
+/-- the curve switch: curve name ↦ the one algorithm that fits it (RFC 7518 §3.4); regenerated, see `fact_alg_fits_key` -/
+def ecAlgOfCurve : List (String × String) := [("P-256", "ES256"), ("P-384", "ES384"), ("P-521", "ES512")]
+
+def algorithmFitsCurve (alg curve : String) : Bool :=
+  match ecAlgOfCurve.find? (fun p => p.1 = curve) with
+  | some p => alg = p.2
+  | none => true                     -- `default: return true`
+
+def ed25519PublicKeySize : Nat := 32
+
+def algorithmFitsKey (alg : String) : KeyShape → Bool
+  | .ed n => alg = "EdDSA" && n = ed25519PublicKeySize
+  | .edNil => false
+  | .okp crv n => if crv = "Ed25519" then alg = "EdDSA" && n = ed25519PublicKeySize else true
+  | .ec c => algorithmFitsCurve alg c
+  | .other => true
+
 /-- everything outside the model, supplied as data / parameters -/
 structure Env where
   sha : Nat → Nat                         -- SHA-256 of a payload (payloads are identified by a number)
-  sigJwk : Tx → Bool                      -- `jws.Verify` against the embedded key
+  sigJwk : Tx → Bool                      -- `jws.Verify` against the embedded key (ANY verdict: jwx only checks the algorithm FAMILY)
   sigKey : Tx → Nat → Bool                -- `jws.Verify` against key `k`
+  jwkShape : Tx → KeyShape := fun _ => .other   -- Go type / curve of `transaction.SigningKey().Raw()`
+  keyShape : Nat → KeyShape := fun _ => .other  -- Go type / curve of resolved key `k`
   kidDid : String → Option String         -- `did.ParseDIDURL` + `GetDIDFromURL` (none = invalid kid)
   resolve : String → Nat → DocRes         -- DID document as of source transaction `ref`
 
@@ -321,8 +351,25 @@ def resolveKey (env : Env) (kid : String) : List Nat → Res Nat
     | .err e => .err e
     | .panic p => .panic p
 
+/-- `NewTransactionSignatureVerifier`: `signingKey` := the embedded key, else the resolved key; then `AlgorithmFitsKey` ON THAT
+    KEY; then `jws.Verify` with it -/
 def verifySig (env : Env) (tx : Tx) : Res Unit :=
   if tx.jwk then
+    if !algorithmFitsKey tx.alg (env.jwkShape tx) then .err "signature"
+    else if env.sigJwk tx then .ok () else .err "signature"
+  else
+    match resolveKey env tx.kid tx.prevs with
+    | .ok k =>
+      if !algorithmFitsKey tx.alg (env.keyShape k) then .err "signature"
+      else if env.sigKey tx k then .ok () else .err "signature"
+    | .err e => .err e
+    | .panic p => .panic p
+
+/-- the verifier with the guard moved to the top, applied to `transaction.SigningKey()` (nil for a kid-referenced key: the
+    `default` clause). NOT the code: kept to show (Props: `fit_guard_must_see_the_resolved_key`) that the position matters. -/
+def verifySigGuardFirst (env : Env) (tx : Tx) : Res Unit :=
+  if !algorithmFitsKey tx.alg (if tx.jwk then env.jwkShape tx else .other) then .err "signature"
+  else if tx.jwk then
     if env.sigJwk tx then .ok () else .err "signature"
   else
     match resolveKey env tx.kid tx.prevs with
